@@ -225,6 +225,39 @@ FreeHomeDir(char *homedir)
  ******************************************************************************/
  
 /*
+ * The path sent by the viewer is relative to ftproot. To stay below ftproot it
+ * has to start with a separator (otherwise ftproot + "2/x" names a sibling of
+ * the root) and must not contain a ".." component.
+ */
+#ifdef WIN32
+#define IS_PATH_SEP(c) ((c) == '/' || (c) == '\\')
+#else
+#define IS_PATH_SEP(c) ((c) == '/')
+#endif
+
+static rfbBool
+IsPathBelowRoot(const char* path)
+{
+	const char* p = path;
+
+	if(!IS_PATH_SEP(path[0]))
+		return FALSE;
+
+	while(*p != '\0') {
+		const char* e;
+		while(IS_PATH_SEP(*p))
+			p++;
+		e = p;
+		while((*e != '\0') && !IS_PATH_SEP(*e))
+			e++;
+		if(((e - p) == 2) && (p[0] == '.') && (p[1] == '.'))
+			return FALSE;
+		p = e;
+	}
+	return TRUE;
+}
+
+/*
  * When the console sends the File Transfer Request, it sends the file path with
  * ftproot as "/". So on Agent, to get the absolute file path we need to prepend
  * the ftproot to it.
@@ -237,10 +270,15 @@ ConvertPath(char* path)
 	
 	if( (path == NULL) ||
 		(strlen(path) == 0) ||
-		(strlen(path)+strlen(ftproot) > PATH_MAX - 1) ) {
+		(strlen(path)+strlen(ftproot) > PATH_MAX - 1) ||
+		(IsPathBelowRoot(path) == FALSE) ) {
 
 		rfbLog("File [%s]: Method [%s]: cannot create path for file transfer\n",
 				__FILE__, __FUNCTION__);
+		/* do not leave the rejected, unrooted name behind: callers keep the
+		   buffer (utime/unlink of an upload's name happen later) */
+		if(path != NULL)
+			memset(path, 0, PATH_MAX);
 		return NULL;
 	}
 
